@@ -26,7 +26,7 @@ KINDS = {
     "registry": dict(imports=IMPORTS, type="rcase", mismatch="rmismatches", nontrivial="rcount_nontrivial"),
     "customize": dict(imports=IMPORTS, type="ccase", mismatch="cmismatches", nontrivial="ccount_nontrivial"),
 }
-RULE = ("main: every wrapper tower over {partial, method, classmethod, staticmethod, wraps} of depth <= 3 (quick) / <= 4 "
+RULE = ("main: every wrapper tower over {partial, method, classmethod, staticmethod, wraps} of depth <= 4 (quick) / <= 5 "
         "(thorough, + random depth 5..7) on leaves {function, code object, other callable}, and random nestings "
         "(depth <= 4, duplicate names, lambdas, genexprs, classes, string constants equal to names) with valid, "
         "invalid, too-deep and non-code name paths; idict: random op sequences (16 operations) over 2-6 keys in 1-3 "
@@ -175,27 +175,29 @@ def c_names(names):
 
 
 def err_of(ex):
-    """canonical form of the exception get_code raises"""
+    """canonical form of the exception get_code raises: its class, plus the position of the name
+    that was not found when the message has the documented shape"""
     import re
-    if isinstance(ex, TypeError) and "extract a code object" in str(ex):
+    if isinstance(ex, TypeError):
         return ["type"]
     if isinstance(ex, ValueError):
         m = re.match(r"Couldn't find a function or class named '([^']*)' in (.*)$", str(ex))
-        if m:
-            return ["value", m.group(2).count(".")]
+        return ["value", m.group(2).count(".") if m else None]
     return ["other", repr(ex)[:200]]
 
 
-def c_gerr(e):
+def c_oerr(e):
     if e[0] == "type":
-        return "ETypeError"
+        return "OTypeError"
     if e[0] == "value":
-        return "(EValueError %d)" % e[1]
+        return "(OValueError %s)" % copt(None if e[1] is None else str(e[1]))
     return None
 
 
 def c_rres(e):
-    return "ROk" if e == ["ok"] else ("(RErr %s)" % c_gerr(e) if c_gerr(e) else "(RErr EOutOfFuel)")
+    if e == ["ok"]:
+        return "OROk"
+    return "(ORErr %s)" % (c_oerr(e) or "(OValueError (Some 4999))")   # unknown exception class: never matches
 
 
 # ====================================================================== nest sources (kind main)
@@ -418,8 +420,8 @@ def coq_main(desc, obs):
     r = obs["res"]
     if r[0] == "code":
         o = "(PCode %d)" % r[1]
-    elif c_gerr(r):
-        o = "(PErr %s)" % c_gerr(r)
+    elif c_oerr(r):
+        o = "(PErr %s)" % c_oerr(r)
     else:
         o = "POther"
     return "(%s, %s, %s, %s)" % (c_tower(obs["term"]), c_names(desc["names"]), cbool(obs["hw"]), o)
@@ -788,6 +790,8 @@ def run_customize(desc):
 
         def elaborate(frame, next_inner):
             log.append([tag, frame.funcname, describe(next_inner)])
+            if len(log) > 40:       # extract() has no fuel: a replacement that keeps matching would never end
+                raise RuntimeError("c12: elaborate hook called more than 40 times in one extraction")
             return ret
         return elaborate
     results, terms, oracle = [], [], None
@@ -884,7 +888,7 @@ def make_inputs(tier, seed):
     rng = random.Random(seed * 7919 + 12)
     quick = tier == "quick"
     # --- main: exhaustive towers, then random towers and nestings
-    for d in range(0, 4 if quick else 5):
+    for d in range(0, 5 if quick else 6):
         for t in all_towers(d):
             yield {"_kind": "main", "tower": t, "names": [], "nest": SIMPLE_TOP}
     for d in range(0, 3):
@@ -893,18 +897,18 @@ def make_inputs(tier, seed):
                 yield {"_kind": "main", "tower": t, "names": names, "nest": SIMPLE_TOP}
     for _ in range(150 if quick else 1500):
         yield {"_kind": "main", "tower": rand_tower(rng, rng.randint(5, 7)), "names": [], "nest": SIMPLE_TOP}
-    for _ in range(500 if quick else 6000):
+    for _ in range(1000 if quick else 10000):
         nest = gen_nest(rng, rng.randint(1, 4), top=True)
         yield {"_kind": "main", "tower": rand_tower(rng, rng.choice([0, 0, 1, 2])), "names": gen_names(rng, nest), "nest": nest}
     # --- idict
-    for _ in range(1200 if quick else 10000):
+    for _ in range(2500 if quick else 20000):
         yield gen_idict(rng)
     # --- registry
-    for _ in range(500 if quick else 5000):
+    for _ in range(1000 if quick else 8000):
         yield gen_registry(rng)
     # --- customize
     yield from sweep_customize()
-    for _ in range(600 if quick else 6000):
+    for _ in range(1200 if quick else 10000):
         yield gen_customize(rng)
 
 
